@@ -57,13 +57,13 @@ CHECKS.update({
    note=SYSNOTE,
    tech="TLA+ contract monitor + TLC trace validation of real executions under a deterministic scheduler"),
  "C10": dict(engine="tlc+h_sys", cat=MC, ref="4 C10",
-   text="executions with scripted faults (format mismatch, throwing user formatters std/non-std, backtrace without init, sinks throwing on chosen write/flush calls) validated by TLC against QuillContract: every other statement delivered once in order, faults reported, backend alive, flush returns",
+   text="Dispatch.tla (level check, per-sink dispatch loop, faults, flush) checked exhaustively for small configurations, every transition exported, judged by the contract (I=>A) and replayed on the real code with per-step event comparison; plus executions with scripted faults (format mismatch, throwing user formatters std/non-std, backtrace without init, sinks throwing on chosen write/flush calls) validated by TLC against QuillContract: every other statement delivered once in order, faults reported, backend alive, flush returns",
    note=SYSNOTE,
-   tech="TLA+ contract monitor + TLC trace validation of real executions under a deterministic scheduler"),
+   tech="TLA+ implementation-shaped model (Dispatch.tla) checked by TLC, its behaviours replayed on the real code; TLA+ contract monitor + TLC trace validation of real executions under a deterministic scheduler"),
  "C16": dict(engine="tlc+h_sys", cat=MC, ref="4 C16",
-   text="executions with random logger/sink levels, filters and changes, static/dynamic/macro statements validated by TLC against QuillContract: enqueued iff level passes at the call, arguments evaluated iff enqueued, per-sink level and filters, reported level",
+   text="Dispatch.tla (level check, per-sink dispatch loop, lazily reloaded filters, override patterns) checked exhaustively for small configurations, every transition exported, judged by the contract (I=>A) and replayed on the real code with per-step event comparison; plus executions with random logger/sink levels, filters and changes, static/dynamic/macro statements validated by TLC against QuillContract: enqueued iff level passes at the call, arguments evaluated iff enqueued, per-sink level and filters, reported level",
    note=SYSNOTE,
-   tech="TLA+ contract monitor + TLC trace validation of real executions under a deterministic scheduler"),
+   tech="TLA+ implementation-shaped model (Dispatch.tla) checked by TLC, its behaviours replayed on the real code; TLA+ contract monitor + TLC trace validation of real executions under a deterministic scheduler"),
  "C17": dict(engine="tlc+h_sys", cat=MC, ref="4 C17",
    text="Quill.tla checked exhaustively for small configurations (per-action checks of this property, I=>A on every exported behaviour, schedules replayed on the real code with state comparison); plus executions with create/get/remove/remove_blocking/re-create cycles and shared sinks validated by TLC against QuillContract: nothing logged before removal is lost, sinks destroyed only when unreferenced, blocking removal returns after completion, idempotent create/get",
    note=SYSNOTE,
